@@ -124,7 +124,9 @@ type hub struct {
 	stop     bool      // the case is over: nobody waits any more
 }
 
-func newHub() *hub { return &hub{ch: make(chan struct{}), plays: map[string]*play{}, progress: time.Now()} }
+func newHub() *hub {
+	return &hub{ch: make(chan struct{}), plays: map[string]*play{}, progress: time.Now()}
+}
 
 // change runs f under the lock and wakes every waiter.
 func (h *hub) change(f func()) {
